@@ -15,11 +15,12 @@ pub fn dispatch(kind: u32, v: &Val) -> Option<Val> {
 
 /// case: (cfg pattern input dotall reply) ->
 ///   (0)                                   the pattern does not build
-///   (1 multi_line_selected table (status events))
+///   (1 multi_line_selected table (status events) oracle_table)
 /// table[p] = () | (a b): find_at(input, p) for p in 0..=len
 fn run_regex(v: &Val) -> Val {
     let cfg = decode_cfg(v.fld(0));
     let pattern = String::from_utf8_lossy(&v.fld(1).bytes()).to_string();
+    let pattern_c = pattern.clone();
     let input = v.fld(2).bytes();
     let o = RgOpts {
         crlf: cfg.crlf,
@@ -29,7 +30,7 @@ fn run_regex(v: &Val) -> Val {
         text: true,
         ..RgOpts::default()
     };
-    let m = match rgcfg::matcher(&[pattern], &o) {
+    let m = match rgcfg::matcher(&[pattern_c], &o) {
         Ok(m) => m,
         Err(_) => return Val::L(vec![Val::N(0)]),
     };
@@ -40,9 +41,23 @@ fn run_regex(v: &Val) -> Val {
             _ => Val::L(vec![]),
         });
     }
+    // independent oracle for "look-around is evaluated against the whole input": the regex crate's own
+    // find_at on the whole haystack, built with the options rg -U uses
+    let mut rb = regex::bytes::RegexBuilder::new(&pattern);
+    rb.multi_line(true).unicode(true).dot_matches_new_line(o.dotall);
+    if cfg.crlf { rb.crlf(true); }
+    let oracle: Vec<Val> = match rb.build() {
+        Ok(re) => (0..=input.len())
+            .map(|p| match re.find_at(&input, p) {
+                Some(mm) => Val::L(vec![Val::N(mm.start() as u128), Val::N(mm.end() as u128)]),
+                None => Val::L(vec![]),
+            })
+            .collect(),
+        Err(_) => vec![],
+    };
     let mut sink = LogSink::new(decode_reply(v.fld(4)));
     let mut searcher = searcher_builder(&cfg).build();
     let selected = searcher.multi_line_with_matcher(&m);
     let r = searcher.search_slice(&m, &input, &mut sink);
-    Val::L(vec![Val::N(1), Val::of_bool(selected), Val::L(table), result_val(r, sink)])
+    Val::L(vec![Val::N(1), Val::of_bool(selected), Val::L(table), result_val(r, sink), Val::L(oracle)])
 }
